@@ -15,7 +15,7 @@ theorem FsForget.rfl' (la : Nat) (a : FS) : FsForget la a a := Or.inl rfl
 
 theorem pesPacketFrame_forget (fuel : Nat) (cb se : Bool) (a b : FS) (d : Bytes)
     (ha : a.newFrame = true) (hb : b.newFrame = true) (hp : a.packetPts = b.packetPts) :
-    pesPacketFrame (fuel + 1) cb se a d = pesPacketFrame (fuel + 1) cb se b d := by
+    pesPacketFrame cfg (fuel + 1) cb se a d = pesPacketFrame cfg (fuel + 1) cb se b d := by
   unfold pesPacketFrame
   simp only [ha, hb, if_true, hp, resetFrame]
 
